@@ -70,6 +70,14 @@ class SymT(torch.Tensor):
         return f"SymT({self.elem})"
 
     @classmethod
+    def __torch_function__(cls, func, types, args=(), kwargs=None):
+        # pinverse decomposes into an SVD below the dispatcher; intercept it one level up with the closed form
+        # (g^T g)^-1 g^T, valid for full column rank (stated assumption), noise size <= 2
+        if func in (torch.Tensor.pinverse, torch.pinverse, torch.linalg.pinv):
+            return sym_pinverse(args[0])
+        return super().__torch_function__(func, types, args, kwargs or {})
+
+    @classmethod
     def __torch_dispatch__(cls, func, types, args=(), kwargs=None):
         kwargs = kwargs or {}
         un = lambda x: x.elem if isinstance(x, SymT) else x
@@ -101,6 +109,25 @@ class SymT(torch.Tensor):
         if isinstance(out, (tuple, list)):
             return type(out)(SymT(o, s) for o, s in zip(out, sout))
         return out
+
+
+def sym_pinverse(g):
+    gt = g.transpose(-1, -2)
+    G = torch.bmm(gt, g)
+    m = G.shape[-1]
+    if m == 1:
+        Ginv = 1 / G
+    elif m == 2:
+        a, b, c, d = G[:, 0, 0], G[:, 0, 1], G[:, 1, 0], G[:, 1, 1]
+        det = a * d - b * c
+        Ginv = torch.stack([torch.stack([d, -b], dim=-1), torch.stack([-c, a], dim=-1)], dim=-2) / det.unsqueeze(-1).unsqueeze(-1)
+    else:
+        raise Unsupported('pinverse for noise size > 2')
+    PINV_USED.append(tuple(g.shape))
+    return torch.bmm(Ginv, gt)
+
+
+PINV_USED = []
 
 
 def _arr(x):
